@@ -114,7 +114,7 @@ ToStep(ev) ==
                    sameExport |-> ev.obs.x.sameExport, fullOk |-> ev.obs.x.fullOk, sameBeh |-> ev.obs.x.sameBeh]
              ELSE DummyX,
        hasBig |-> HasX(ev, "big"),
-       big |-> IF HasX(ev, "big") THEN ev.obs.x.big ELSE [esc |-> <<0>>, orb |-> <<0>>, dust |-> <<0>>, F1 |-> <<0>>, F2 |-> <<0>>, U |-> <<0>>],
+       big |-> IF HasX(ev, "big") THEN ev.obs.x.big ELSE [esc |-> <<0>>, orb |-> <<0>>, orbPre |-> <<0>>, dust |-> <<0>>, F1 |-> <<0>>, F2 |-> <<0>>, U |-> <<0>>],
        hasDiff |-> HasXAny(ev, "diff"),
        diff |-> IF HasXAny(ev, "diff")
                 THEN [ackEq |-> ev.obs.x.diff.ackEq, eventsEq |-> ev.obs.x.diff.eventsEq, stateEq |-> ev.obs.x.diff.stateEq,
@@ -180,7 +180,7 @@ PropHolds(c, S) ==
   CASE S.in.disc -> TRUE
     [] c = "C01" -> Prop_C01(S) [] c = "C02" -> Prop_C02(S) /\ Prop_C02big(S) [] c = "C03" -> Prop_C03(S) /\ Prop_C03big(S)
     [] c = "C04" -> Prop_C04(S) /\ Prop_C04big(S) [] c = "C05" -> Prop_C05(S) [] c = "C06" -> Prop_C06(S) [] c = "C08" -> Prop_C08(S)
-    [] c = "C09" -> Prop_C09(S) [] c = "C10" -> Prop_C10(S) [] c = "C11" -> Prop_C11(S)
+    [] c = "C09" -> Prop_C09(S) [] c = "C10" -> Prop_C10(S) [] c = "C11" -> Prop_C11(S) /\ Prop_C11big(S)
     [] c = "C07" -> Prop_C07(S) [] c = "C13" -> Prop_C13(S) [] c = "C19" -> Prop_C19(S)
     [] c = "C14" -> Prop_C14(S) [] c = "C15" -> Prop_C15(S) [] c = "C16" -> Prop_C16(S) [] c = "C20" -> Prop_C20(S) [] c = "C17b" -> Prop_C17b(S) [] c = "C17c" -> Prop_C17c(S) [] c = "C12" -> Prop_C12(S) [] c = "C17" -> Prop_C17(S) [] c = "C18" -> Prop_C18(S)
     [] OTHER -> TRUE
@@ -206,7 +206,8 @@ Ante(S) ==
        [] c = "C20" -> S.in.t = "ident"
        [] c = "C17b" -> S.in.t = "gendoc" /\ S.gen.validateOk
        [] c = "C10" -> IsAdmin(S)
-       [] c = "C11" -> IsOrbiterPacket(S) /\ S.ctl.clean.run /\ \E d \in Denom : S.pre.bal["orb"][d] > 0
+       [] c = "C11" -> (IsOrbiterPacket(S) /\ S.ctl.clean.run /\ \E d \in Denom : S.pre.bal["orb"][d] > 0)
+                         \/ (IsBig(S) /\ ~BIsZero(S.big.orbPre))
        [] c = "C17" -> S.in.t = "reimport"
        [] c = "C18" -> (HasPayload(S) /\ S.in.fw.pt > 0) \/ (IsAdmin(S) /\ S.in.rpc = "UpdateParams")
        [] OTHER -> FALSE}
